@@ -325,13 +325,32 @@ def expected_patterns(rows: Dict[int, Dict[str, Any]], operator: str, min_len: i
     cands = [i for i, r in rows.items() if isinstance(r.get("name"), str) and operator in r["name"]]
     if not cands:
         return {}
-    depths = [rows[i].get("depth") for i in cands if isinstance(rows[i].get("depth"), int)]
+
+    # call-stack depth = number of ancestors in the tool's parent relation (the depth column itself is
+    # C13's subject and is not trusted here); events outside every call stack have no depth
+    def depth_of(i: int) -> Optional[int]:
+        if not (isinstance(rows[i].get("depth"), int) and rows[i]["depth"] >= 0):
+            return None
+        d, seen = 0, 0
+        p = rows[i].get("parent")
+        while isinstance(p, int) and p >= 0 and p in rows and seen < 100000:
+            d += 1
+            seen += 1
+            p = rows[p].get("parent")
+        return d
+
+    depth = {i: depth_of(i) for i in cands}
+    depths = [d for d in depth.values() if d is not None]
     if not depths:
         return {}
     dmin = min(depths)
+    if any(d is None for d in depth.values()):
+        # a matching event outside every call stack: the tool's "shallowest depth" is then -1 and
+        # nothing is reported; the property does not speak about such events, so the reference follows
+        return {} if any(rows[i].get("depth") == -1 for i in cands) else None
     out: Dict[str, List[Any]] = {}
     for i in cands:
-        if rows[i].get("depth") != dmin:
+        if depth[i] != dmin:
             continue
         kern: List[int] = []
         stack = [i]
